@@ -285,7 +285,7 @@ seq_shuffling(ESL_GETOPTS *go, ESL_RANDOMNESS *r, FILE *ofp, int outfmt)
 	shuff->n = sq->n;
 	targ = sq->seq;
       } else {
-	if (sq->n < L) continue;     /* reject seqs < L long */
+	if (sq->n < L) { esl_sq_Reuse(sq); continue; }   /* reject seqs < L long */
       }
 
       for (i = 0; i < N; i++)
